@@ -885,7 +885,8 @@ def parse_strace(path, keys_dir):
         k = (pid, name)
         ords[k] = ords.get(k, 0) + 1
         strs = [s for s in _STR.findall(args)]
-        e = {"i": len(entries), "pid": pid, "name": name, "args": args, "ret": ret, "ord": ords[k], "strs": strs, "obj": "other"}
+        e = {"i": len(entries), "pid": pid, "name": name, "args": args, "ret": ret, "ord": ords[k], "strs": strs, "obj": "other",
+             "injected": "(INJECTED)" in ln}
         r = None if ret == "?" else int(ret)
         fd0 = None
         m0 = re.match(r"^(\d+)[,)]?", args)
@@ -987,16 +988,17 @@ def translate(entries, keys_dir, attests=None):
         elif o == "host" and name in ("writev", "sendto", "sendmsg", "write") and ok:
             s = e["strs"][0] if e["strs"] else ""
             if s.startswith("GET /secure-channel/status"):
-                emit({"e": "net", "op": "status", "g": "none", "latches": False})
+                emit({"e": "net", "op": "status", "g": "none", "latches": False, "file": "unknown"})
             elif s.startswith("POST /secure-channel/key HTTP") or s.startswith("POST /secure-channel/key "):
-                emit({"e": "net", "op": "acquire", "g": "none", "latches": False})
+                emit({"e": "net", "op": "acquire", "g": "none", "latches": False, "file": "unknown"})
             elif s.startswith("POST /secure-channel/key/"):
                 guid = s[len("POST /secure-channel/key/"):].split("/")[0]
                 rec = attests.pop(0) if attests else {}
                 rows.append({"e": "net", "op": "attest", "g": GUID_REV.get(guid, "?" + guid),
-                             "latches": bool(rec.get("latched") and rec.get("latched") == guid)})
+                             "latches": bool(rec.get("latched") and rec.get("latched") == guid),
+                             "file": rec.get("file_at_attest", "unknown")})
             elif s.startswith("GET /verif/signed"):
-                emit({"e": "net", "op": "signed", "g": "none", "latches": False})
+                emit({"e": "net", "op": "signed", "g": "none", "latches": False, "file": "unknown"})
     return rows
 
 
@@ -1033,6 +1035,43 @@ C08_PLANS = {
 }
 
 
+# transient storage faults: ONE system call of the store / read-back step of the first process fails (strace
+# inject=<call>:error=<errno>:when=<ordinal of that call in an undisturbed run>), every later call works again.  Nothing
+# on the file system is touched, so nothing is left behind, and it works as root.
+C08_FSFAULTS = {
+    # plan name: (what fails, errno, how many consecutive invocations)
+    "store-create-fails": ("tmp-create", "ENOSPC", 1),
+    "store-write-fails": ("tmp-write", "ENOSPC", 1),
+    "store-rename-fails": ("rename", "EIO", 1),
+    "store-rename-fails-twice": ("rename", "EIO", 2),
+    "readback-fails": ("final-open", "EIO", 1),
+}
+for _n in C08_FSFAULTS:
+    C08_PLANS[_n] = {}
+C08_PLANS["store-rename-fails+attest-lost"] = C08_PLANS["attest-lost"]
+C08_FSFAULTS["store-rename-fails+attest-lost"] = ("rename", "EIO", 1)
+
+
+def fault_target(entries, what):
+    """the system call of an undisturbed run that the storage fault will hit"""
+    renamed = False
+    for e in entries:
+        o, n = e["obj"], e["name"]
+        if n.startswith("rename") and e.get("to", "").endswith(".key"):
+            if what == "rename":
+                return e
+            renamed = True
+        if not o.startswith("key:"):
+            continue
+        if what == "tmp-create" and n in ("openat", "creat") and o.endswith(".tmp"):
+            return e
+        if what == "tmp-write" and n in ("write", "writev") and o.endswith(".tmp"):
+            return e
+        if what == "final-open" and renamed and n == "openat" and o.endswith(".key"):
+            return e
+    return None
+
+
 class Sweeper:
     """one rig (namespace + host); runs agent processes under strace on scenario/plan/kill point"""
 
@@ -1040,6 +1079,7 @@ class Sweeper:
         self.rg = Rig(name, bindir, serve=False, interval_ms=5, loggers=True)
         self.all = all_syscalls
         self.n = 0
+        self.faults = {}          # (scenario, plan) -> (syscall, errno, "first..last")
 
     def close(self, keep=False):
         self.rg.close(keep=keep)
@@ -1052,13 +1092,13 @@ class Sweeper:
         rg.reset_keys(_files_for(init), absent=(init["dir"] == "absent"))
         shutil.rmtree(rg.logs, ignore_errors=True)
         os.makedirs(rg.logs, exist_ok=True)
-        rg.host.call(op="set", hold=False, doc=concrete_doc(init["doc"]), keys={G(a): K(a) for a in init["issued"]},
+        rg.host.call(op="set", hold=False, keydir=rg.keys, doc=concrete_doc(init["doc"]), keys={G(a): K(a) for a in init["issued"]},
                      named=None if init["named"] == "none" else G(init["named"]),
                      latched=None if init["latched"] == "none" else G(init["latched"]),
                      issue_queue=[{"guid": G(a), "key": K(a)} for a in queue], plans=C08_PLANS[plan])
         return init
 
-    def _spawn(self, tag, inject=None):
+    def _spawn(self, tag, inject=None, fault=None):
         rg = self.rg
         self.n += 1
         log = os.path.join(rg.dir, "st_%s.log" % tag)
@@ -1067,6 +1107,8 @@ class Sweeper:
         except FileNotFoundError:
             pass
         argv = ["strace", "-f", "-s", "200", "-o", log, "-e", "trace=all" if self.all else "trace=file,network,desc"]
+        if fault:
+            argv += ["-e", "inject=%s:error=%s:when=%s" % fault]
         if inject:
             argv += ["-e", "inject=%s:signal=KILL:when=%d" % inject]
         argv.append(rg.exe)
@@ -1094,13 +1136,31 @@ class Sweeper:
         return {"final": final, "tmp": tmp, "latched": lat, "damaged": sorted(damaged), "stray": stray}
 
     def baseline(self, scenario, plan):
-        """an undisturbed run of the scenario -> its kill points"""
+        """an undisturbed run of the scenario (with the plan's storage fault, if it has one) -> its kill points"""
+        fault = None
+        if plan in C08_FSFAULTS:
+            what, errno, times = C08_FSFAULTS[plan]
+            self._prepare(scenario, plan)
+            r0 = self._spawn("base0")
+            t = fault_target(r0["entries"], what) if r0["rc"] == 0 else None
+            if t is None:
+                raise util.ToolError("no %s call found in the undisturbed run of %s/%s (rc=%s)" % (what, scenario, plan, r0["rc"]))
+            fault = (t["name"], errno, "%d..%d" % (t["ord"], t["ord"] + times - 1) if times > 1 else str(t["ord"]))
+            self.faults[(scenario, plan)] = fault
         self._prepare(scenario, plan)
-        r = self._spawn("base")
+        r = self._spawn("base", fault=fault)
+        if fault:
+            hit = [e for e in r["entries"] if e["injected"]]
+            if not hit or any(not (e["obj"].startswith("key:") or e.get("to")) for e in hit):
+                raise util.ToolError("the storage fault of %s/%s did not hit the intended call: %s" % (
+                    scenario, plan, [(e["name"], e["obj"]) for e in hit]))
         if r["rc"] != 0:
             raise util.ToolError("baseline run of %s/%s failed rc=%s %s: %s" % (scenario, plan, r["rc"], r["result"], self.rg.agent_err()[-400:]))
         inj = sorted({e["name"] for e in r["entries"]}) if self.all else QUICK_SET
-        return kill_points(r["entries"], set(inj), all_points=self.all), len(r["entries"])
+        pts = kill_points(r["entries"], set(inj), all_points=self.all)
+        if fault:      # strace keeps one tampering rule per system call: no kill point on the call that carries the fault
+            pts = [p for p in pts if p[0] != fault[0]]
+        return pts, len(r["entries"])
 
     def case(self, case_id, scenario, plan, point):
         """first process (killed before `point`, or undisturbed when point is None), then a fresh process on the same
@@ -1110,7 +1170,12 @@ class Sweeper:
         rg = self.rg
         rows = [{"e": "case", "id": case_id, "final0": init["final"], "latched0": init["latched"], "damaged": sorted(damaged)},
                 {"e": "spawn"}]
-        r1 = self._spawn("first", inject=(point[0], point[1]) if point else None)
+        fault = self.faults.get((scenario, plan))
+        if plan in C08_FSFAULTS and fault is None:
+            self.baseline(scenario, plan)
+            fault = self.faults[(scenario, plan)]
+            init = self._prepare(scenario, plan)
+        r1 = self._spawn("first", inject=(point[0], point[1]) if point else None, fault=fault)
         if r1["timeout"] or (r1["rc"] not in (0, -9) and not r1["killed"]):
             raise util.ToolError("case %s: first process ended rc=%s %s %s" % (case_id, r1["rc"], r1["result"], rg.agent_err()[-300:]))
         o1 = self._observe(damaged)
@@ -1142,7 +1207,9 @@ class Sweeper:
                          **{k: o2[k] for k in ("final", "tmp", "latched", "damaged")}))
         rows.append({"e": "end"})
         summary = {"case": case_id, "scenario": scenario, "plan": plan, "point": list(point) if point else None,
-                   "killed": bool(r1["killed"]), "killed_before": killed_at, "latched_at_kill": lat0, "good_local": bool(good0),
+                   "killed": bool(r1["killed"]), "killed_before": killed_at,
+                   "storage_fault": list(fault) if fault else None,
+                   "storage_fault_hit": [(e["name"], e["obj"]) for e in r1["entries"] if e["injected"]], "latched_at_kill": lat0, "good_local": bool(good0),
                    "restart_rc": r2["rc"], "restart_result": r2["result"].get("result"), "restart_acquires": rows[-2]["acquires"],
                    "final_after_kill": o1["final"], "tmp_after_kill": o1["tmp"],
                    "host_requests_first": [x["kind"] for x in hl1], "host_requests_restart": [x["kind"] for x in hl2]}
